@@ -134,6 +134,8 @@ def _dig(sim):
         out[a] = hashlib.sha1(_bytes_of(getattr(sim, a, None))).hexdigest()[:12]
     lab = getattr(sim, "labels", None)
     out["labels"] = None if lab is None else [int(x) for x in lab]
+    d = getattr(sim, "data", None)
+    out["finite"] = bool(d is not None and all(np.isfinite(np.asarray(c.values, dtype=float)).all() for c in (d.data if hasattr(d, "data") else [d])))
     return out
 
 
@@ -156,6 +158,10 @@ def _make_sim(spec, seed):
 
     k = spec["kind"]
     m = spec["m"]
+    if spec.get("fam") == "bsplines" and k in ("kl", "klmulti"):
+        spec["K"] = 5  # cubic B-splines need at least 4 functions (3 gives NaN basis values: 0 segments)
+    if spec.get("fam") == "bsplines" and k in ("klmixed", "kl2d"):
+        spec["fam"] = "wiener"  # two cubic B-spline functions give NaN basis values
     if k == "kl":
         fam = spec["fam"]
         return KarhunenLoeve(n_functions=spec["K"], basis_name=fam, argvals=DenseArgvals({"input_dim_0": _grid_for(fam, m)}), random_state=seed)
@@ -257,6 +263,8 @@ def gen_cases(rng: Rng, tier):
         shape = rng.choice(["kl", "kl", "kl2d", "klmulti", "klmixed"])
         spec = dict(kind=shape, fam=rng.choice(KL_FAMILIES), fam2=rng.choice(["fourier", "legendre", "wiener"]), K=rng.choice([1, 2, 3, 5]) if shape != "kl" else rng.choice([2, 3, 5]), m=rng.randint(3, 8))
         n_obs, kc = rng.choice([1, 2, 3, 4, 7]), rng.randint(1, 4)
+        if spec["fam"] == "bsplines" and shape in ("kl", "klmulti"):
+            spec["K"] = 5
         nf = {"kl": spec["K"], "kl2d": 4, "klmulti": spec["K"], "klmixed": 4}[shape]
         opt = rng.choice(["default", "centers", "cstd_name", "cstd_array", "both"])
         c = dict(kind="kl", spec=spec, n_obs=n_obs, n_clusters=kc, opt=opt, seeded=rng.random() < 0.7,
@@ -774,7 +782,7 @@ def oracle(case, impl):
                         bad("global_untouched", entry, f"call {ci} ({call['op']}): the seeded {nm} simulator advanced the legacy global generator", ["global_generator_used"])
                         break
             if call["op"] == "new" and a["status"] == "ok":
-                if prev_new is not None and prev_new == a["dig"]["data"] and call["n_obs"] > 0:
+                if prev_new is not None and prev_new == a["dig"]["data"] and call["n_obs"] > 0 and a["dig"].get("finite"):
                     bad("successive_differ", entry, f"call {ci}: two successive draws of one simulator are identical")
                 prev_new = a["dig"]["data"]
         return vs
